@@ -88,7 +88,7 @@ var busyPrefixes = []string{"running", "runnable", "syscall", "idle", "copystack
 
 // allParked: one stop-the-world snapshot; true iff every goroutine except the caller is parked
 // on something only a timer or the caller can end.
-func allParked() bool {
+func allParked() (bool, uint64) {
 	n := runtime.Stack(stackBuf, true)
 	for n == len(stackBuf) {
 		stackBuf = make([]byte, 2*len(stackBuf))
@@ -96,6 +96,7 @@ func allParked() bool {
 	}
 	b := stackBuf[:n]
 	first := true
+	var sig uint64 = 1469598103934665603
 	for len(b) > 0 {
 		i := bytes.Index(b, []byte("goroutine "))
 		if i < 0 {
@@ -114,6 +115,9 @@ func allParked() bool {
 		}
 		rb := bytes.IndexByte(b[lb:], ']')
 		state := string(b[lb+1 : lb+rb])
+		for _, ch := range b[:lb+rb] { // goroutine id and state
+			sig = (sig ^ uint64(ch)) * 1099511628211
+		}
 		b = b[nl:]
 		if first { // the caller
 			first = false
@@ -121,20 +125,33 @@ func allParked() bool {
 		}
 		for _, p := range busyPrefixes {
 			if strings.HasPrefix(state, p) {
-				return false
+				return false, 0
 			}
 		}
 	}
-	return true
+	return true, sig
 }
 
 func waitQuiescent() bool {
+	// Rest = two consecutive snapshots, a yield and 100 us apart, in which every goroutine but the
+	// driver is parked AND the set of (goroutine, wait state) is the same. One snapshot is sound in
+	// principle (wake-ups are made by running goroutines), the second one guards against anything
+	// that moves without a running goroutine of ours (runtime timers, netpoll, a wake-up in flight).
 	deadline := time.Now().Add(quiesceDeadline)
+	var last uint64
+	have := false
 	for i := 0; ; i++ {
 		runtime.Gosched()
-		if allParked() {
-			return true
+		ok, sig := allParked()
+		if ok {
+			if have && sig == last {
+				return true
+			}
+			have, last = true, sig
+			time.Sleep(100 * time.Microsecond)
+			continue
 		}
+		have = false
 		if time.Now().After(deadline) {
 			return false
 		}
